@@ -3,10 +3,15 @@
 
    Tokenisation is done in Go by text/scanner in its default mode (GoTokens,
    GoWhitespace, comments skipped).  [tokenize] models it on the documented
-   alphabet; everything else becomes [TBad] (outside the model: the Go parser
-   would accept e.g. the number 1 as a variable name, the model rejects it).
+   alphabet.  A token is "name-like" (scanner kind < 0: identifiers -- text/scanner
+   has no keywords -- and numbers) or a punctuation character (kind >= 0).
+   [TId s] is a name-like token: an identifier or a plain sequence of decimal
+   digits.  [TBad] is everything outside the model: characters such as '#',
+   unterminated comments, and the other name-like tokens of text/scanner (floats,
+   hexadecimal numbers, "strings", 'c'), which the Go parser would accept as
+   variable names.  The model rejects any text that contains [TBad].
 
-   The Go parser state is (scanner, eof flag, current token).  Here it is the
+   The Go parser state is (scanner, eof flag, kind, current token).  Here it is the
    list of the tokens not yet consumed: its head is p.token, [] means p.eof
    (p.token = "" then).  p.scan() is "drop the head". *)
 From Coq Require Import List String Ascii Arith Bool.
@@ -33,9 +38,9 @@ Inductive ast :=
 
 Definition eval_bin (o : binop) (x y : bool) : bool :=
   match o with
-  | Seq => andb x y                     (* parser.go:83  And(f, f2) *)
-  | And => andb x y                     (* parser.go:184 And(f, f2) *)
-  | Or => orb x y                       (* parser.go:162 *)
+  | Seq => andb x y                     (* parser.go:86  And(f, f2) *)
+  | And => andb x y                     (* parser.go:187 And(f, f2) *)
+  | Or => orb x y                       (* parser.go:165 *)
   | Impl => orb (negb x) y              (* bf.go:297 or{not{f1}, f2} *)
   | Equiv => Bool.eqb x y               (* bf.go:302 *)
   end.
@@ -79,84 +84,72 @@ Definition is_operator (t : tok) : bool :=
 Definition starts_operator (ts : list tok) : bool :=
   match ts with t :: _ => is_operator t | [] => false end.
 
-(* go/token keywords: token.Lookup(s) != token.IDENT exactly for these *)
-Definition go_keywords : list string :=
-  ["break"; "case"; "chan"; "const"; "continue"; "default"; "defer"; "else";
-   "fallthrough"; "for"; "func"; "go"; "goto"; "if"; "import"; "interface";
-   "map"; "package"; "range"; "return"; "select"; "struct"; "switch"; "type";
-   "var"].
-
-Definition go_keyword (s : string) : bool := existsb (String.eqb s) go_keywords.
-
-(* parser.go:237  token.Lookup(p.token) == token.IDENT : true of EVERY token
-   text that is not a Go keyword, punctuation included. *)
+(* p.kind < 0: the token is name-like.  parser.go:240 and :255 reject the
+   others ("a punctuation sign is not a variable name"). *)
 Definition ident_text (t : tok) : option string :=
-  match tok_text t with
-  | Some s => if go_keyword s then None else Some s
-  | None => None
-  end.
+  match t with TId s => Some s | _ => None end.
 
 Inductive res :=
 | Ok (a : ast) (rest : list tok)
 | Err
 | OutOfFuel.
 
-(* parser.go:232-248, the loop [for p.token != "}"].  [ts] is what follows the
+(* parser.go:235-251, the loop [for p.token != "}"].  [ts] is what follows the
    current token, which is "{" (first iteration) or "," (later ones). *)
 Fixpoint parse_vars (ts : list tok) : option (list string * list tok) :=
   match ts with
-  | [] => None                                   (* :233-235 scan, eof *)
+  | [] => None                                   (* :236-238 scan, eof *)
   | t :: ts1 =>
-    match ident_text t with                      (* :237 *)
+    match ident_text t with                      (* :240 p.kind >= 0 *)
     | None => None
-    | Some s =>                                  (* :240 append *)
-      match ts1 with                             (* :241 scan *)
-      | [] => None                               (* :242 eof *)
-      | TRb :: ts2 => Some ([s], ts2)            (* loop ends, :249 scan *)
+    | Some s =>                                  (* :243 append *)
+      match ts1 with                             (* :244 scan *)
+      | [] => None                               (* :245 eof *)
+      | TRb :: ts2 => Some ([s], ts2)            (* loop ends, :252 scan *)
       | TComma :: ts2 =>
         match parse_vars ts2 with
         | Some (l, r) => Some (s :: l, r)
         | None => None
         end
-      | _ :: _ => None                           (* :245 *)
+      | _ :: _ => None                           (* :248 *)
       end
     end
   end.
 
 Fixpoint parse_clause (fuel : nat) (ts : list tok) {struct fuel} : res :=
   match fuel with O => OutOfFuel | S n =>
-  if starts_operator ts then Err else            (* :64 *)
-  match parse_equiv n ts with                    (* :67 *)
+  if starts_operator ts then Err else            (* :67 *)
+  match parse_equiv n ts with                    (* :70 *)
   | Ok f r =>
     match r with
-    | [] => Ok f []                              (* :71 *)
-    | TSemi :: r1 =>                             (* :74 scan *)
+    | [] => Ok f []                              (* :74 *)
+    | TSemi :: r1 =>                             (* :77 scan *)
       match r1 with
-      | [] => Ok f []                            (* :76 trailing ";" accepted *)
+      | [] => Ok f []                            (* :79 trailing ";" accepted *)
       | _ :: _ =>
-        match parse_clause n r1 with             (* :79 *)
+        match parse_clause n r1 with             (* :82 *)
         | Ok f2 r2 => Ok (ABin Seq f f2) r2
         | e => e
         end
       end
-    | _ :: _ => Ok f r                           (* :85 *)
+    | _ :: _ => Ok f r                           (* :88 *)
     end
   | e => e
   end end
 
 with parse_equiv (fuel : nat) (ts : list tok) {struct fuel} : res :=
   match fuel with O => OutOfFuel | S n =>
-  match ts with [] => Err | _ :: _ =>            (* :89 *)
-  if starts_operator ts then Err else            (* :92 *)
-  match parse_implies n ts with                  (* :95 *)
+  match ts with [] => Err | _ :: _ =>            (* :92 *)
+  if starts_operator ts then Err else            (* :95 *)
+  match parse_implies n ts with                  (* :98 *)
   | Ok f r =>
     match r with
-    | [] => Ok f []                              (* :99 *)
+    | [] => Ok f []                              (* :102 *)
     | TEq :: r1 =>
       match r1 with
-      | [] => Err                                (* :104 *)
+      | [] => Err                                (* :107 *)
       | _ :: _ =>
-        match parse_equiv n r1 with              (* :107 *)
+        match parse_equiv n r1 with              (* :110 *)
         | Ok f2 r2 => Ok (ABin Equiv f f2) r2
         | e => e
         end
@@ -168,23 +161,23 @@ with parse_equiv (fuel : nat) (ts : list tok) {struct fuel} : res :=
 
 with parse_implies (fuel : nat) (ts : list tok) {struct fuel} : res :=
   match fuel with O => OutOfFuel | S n =>
-  match parse_or n ts with                       (* :117 *)
+  match parse_or n ts with                       (* :120 *)
   | Ok f r =>
     match r with
-    | [] => Ok f []                              (* :121 *)
-    | TMinus :: r1 =>                            (* :124 *)
+    | [] => Ok f []                              (* :124 *)
+    | TMinus :: r1 =>                            (* :127 *)
       match r1 with
-      | [] => Err                                (* :126 *)
+      | [] => Err                                (* :129 *)
       | TGt :: r2 =>
         match r2 with
-        | [] => Err                              (* :133 *)
+        | [] => Err                              (* :136 *)
         | _ :: _ =>
-          match parse_implies n r2 with          (* :136 *)
+          match parse_implies n r2 with          (* :139 *)
           | Ok f2 r3 => Ok (ABin Impl f f2) r3
           | e => e
           end
         end
-      | _ :: _ => Err                            (* :129 *)
+      | _ :: _ => Err                            (* :132 *)
       end
     | _ :: _ => Ok f r
     end
@@ -193,13 +186,13 @@ with parse_implies (fuel : nat) (ts : list tok) {struct fuel} : res :=
 
 with parse_or (fuel : nat) (ts : list tok) {struct fuel} : res :=
   match fuel with O => OutOfFuel | S n =>
-  match parse_and n ts with                      (* :146 *)
+  match parse_and n ts with                      (* :149 *)
   | Ok f r =>
     match r with
     | [] => Ok f []
     | TBar :: r1 =>
       match r1 with
-      | [] => Err                                (* :155 *)
+      | [] => Err                                (* :158 *)
       | _ :: _ =>
         match parse_or n r1 with
         | Ok f2 r2 => Ok (ABin Or f f2) r2
@@ -213,13 +206,13 @@ with parse_or (fuel : nat) (ts : list tok) {struct fuel} : res :=
 
 with parse_and (fuel : nat) (ts : list tok) {struct fuel} : res :=
   match fuel with O => OutOfFuel | S n =>
-  match parse_not n ts with                      (* :168 *)
+  match parse_not n ts with                      (* :171 *)
   | Ok f r =>
     match r with
     | [] => Ok f []
     | TAmp :: r1 =>
       match r1 with
-      | [] => Err                                (* :177 *)
+      | [] => Err                                (* :180 *)
       | _ :: _ =>
         match parse_and n r1 with
         | Ok f2 r2 => Ok (ABin And f f2) r2
@@ -233,47 +226,47 @@ with parse_and (fuel : nat) (ts : list tok) {struct fuel} : res :=
 
 with parse_not (fuel : nat) (ts : list tok) {struct fuel} : res :=
   match fuel with O => OutOfFuel | S n =>
-  if starts_operator ts then Err else            (* :190 *)
+  if starts_operator ts then Err else            (* :193 *)
   match ts with
-  | TCaret :: r1 =>                              (* :193 *)
+  | TCaret :: r1 =>                              (* :196 *)
     match r1 with
-    | [] => Err                                  (* :195 *)
+    | [] => Err                                  (* :198 *)
     | _ :: _ =>
       match parse_not n r1 with
       | Ok f r2 => Ok (ANot f) r2
       | e => e
       end
     end
-  | _ => parse_basic n ts                        (* :204 *)
+  | _ => parse_basic n ts                        (* :207 *)
   end end
 
 with parse_basic (fuel : nat) (ts : list tok) {struct fuel} : res :=
   match fuel with O => OutOfFuel | S n =>
   match ts with
-  | [] => Ok (AVar "") []                        (* :253 with p.token = "" (never reached) *)
+  | [] => Ok (AVar "") []                        (* :258 p.token = "", kind = EOF (never reached) *)
   | t :: r =>
-    if is_operator t then Err else               (* :212 *)
+    if is_operator t then Err else               (* :215 *)
     match t with
-    | TRp => Err                                 (* :212 *)
-    | TLp =>                                     (* :215 *)
-      match parse_clause n r with                (* :217 *)
+    | TRp => Err                                 (* :215 *)
+    | TLp =>                                     (* :218 *)
+      match parse_clause n r with                (* :220 *)
       | Ok f r1 =>
         match r1 with
-        | [] => Err                              (* :221 *)
-        | TRp :: r2 => Ok f r2                   (* :227 *)
-        | _ :: _ => Err                          (* :224 *)
+        | [] => Err                              (* :224 *)
+        | TRp :: r2 => Ok f r2                   (* :230 *)
+        | _ :: _ => Err                          (* :227 *)
         end
       | e => e
       end
-    | TLb =>                                     (* :230 *)
+    | TLb =>                                     (* :233 *)
       match parse_vars r with
-      | Some (l, r') => Ok (AUniq l) r'          (* :250 *)
+      | Some (l, r') => Ok (AUniq l) r'          (* :253 *)
       | None => Err
       end
-    | _ =>                                       (* :252-253 any other token is a name *)
-      match tok_text t with
-      | Some s => Ok (AVar s) r
-      | None => Err                              (* TBad: outside the model *)
+    | _ =>
+      match ident_text t with                    (* :255 p.kind >= 0 *)
+      | Some s => Ok (AVar s) r                  (* :258-259 *)
+      | None => Err
       end
     end
   end end.
@@ -375,6 +368,7 @@ Fixpoint list_of_string (s : string) : list ascii :=
 Inductive sstate :=
 | SNormal
 | SIdent (acc : list ascii)     (* reversed characters of the identifier being read *)
+| SNum (acc : list ascii)       (* reversed digits of the decimal number being read *)
 | SSlash                        (* a '/' was read *)
 | SLine                         (* inside // ... *)
 | SBlock                        (* inside /* ... *)
@@ -383,6 +377,7 @@ Inductive sstate :=
 Definition step_normal (c : ascii) : list tok * sstate :=
   if is_blank c then ([], SNormal)
   else if is_letter c then ([], SIdent [c])
+  else if is_digit c then ([], SNum [c])
   else if nat_of_ascii c =? 47 then ([], SSlash)
   else match punct c with
        | Some t => ([t], SNormal)
@@ -394,6 +389,14 @@ Definition step (st : sstate) (c : ascii) : list tok * sstate :=
   | SNormal => step_normal c
   | SIdent acc =>
     if is_letter c || is_digit c then ([], SIdent (c :: acc))
+    else let (out, st') := step_normal c in (TId (string_of_list (rev acc)) :: out, st')
+  | SNum acc =>
+    (* scanner.Int, kind < 0: name-like.  Only plain decimal digit sequences are
+       modelled; a letter, '_' or '.' right after the digits (hexadecimal,
+       exponent, float, digit separator) is outside the model. *)
+    if is_digit c then ([], SNum (c :: acc))
+    else if is_letter c || (nat_of_ascii c =? 46)
+    then let (out, st') := step_normal c in (TBad :: out, st')
     else let (out, st') := step_normal c in (TId (string_of_list (rev acc)) :: out, st')
   | SSlash =>
     if nat_of_ascii c =? 47 then ([], SLine)
@@ -410,6 +413,7 @@ Definition flush (st : sstate) : list tok :=
   match st with
   | SNormal | SLine => []
   | SIdent acc => [TId (string_of_list (rev acc))]
+  | SNum acc => [TId (string_of_list (rev acc))]
   | SSlash => [TBad]
   | SBlock | SBlockStar => [TBad]     (* "comment not terminated" *)
   end.
@@ -498,14 +502,24 @@ Definition valid_ident (s : string) : bool :=
   | c :: r => is_letter c && forallb (fun d => is_letter d || is_digit d) r
   end.
 
+(* a decimal number is a variable name too (scanner.Int has kind < 0) *)
+Definition valid_number (s : string) : bool :=
+  match list_of_string s with
+  | [] => false
+  | c :: r => is_digit c && forallb is_digit r
+  end.
+
+(* the name-like tokens of the model; Go keywords are ordinary names *)
+Definition valid_name (s : string) : bool := valid_ident s || valid_number s.
+
 Fixpoint wf_identsb (a : ast) : bool :=
   match a with
-  | AVar s => valid_ident s
+  | AVar s => valid_name s
   | ANot x => wf_identsb x
   | ABin _ x y => wf_identsb x && wf_identsb y
   | AUniq l =>
     match l with [] => false | _ :: _ => true end
-    && forallb (fun s => valid_ident s && negb (go_keyword s)) l
+    && forallb valid_name l
   end.
 
 Definition wf_idents (a : ast) : Prop := wf_identsb a = true.
@@ -523,15 +537,15 @@ Fixpoint bal (st : list bool) (ts : list tok) : bool :=
 
 Definition balanced (ts : list tok) : Prop := bal [] ts = true.
 
-(* parentheses only, the content of a brace group being skipped: what the
-   parser really enforces (Proofs.BfParse.parse_accept) *)
+(* the shape of accepted token lists: operand/operator alternation with a
+   parenthesis counter (Proofs.BfParse.parse_accept) *)
 Inductive amode := MWant | MAfter | MMinus | MBName | MBSep.
 
 Definition astep (m : amode) (d : nat) (t : tok) : option (amode * nat) :=
   match m with
   | MWant =>
     match t with
-    | TId _ | TRb | TComma | TMinus | TGt => Some (MAfter, d)
+    | TId _ => Some (MAfter, d)
     | TLp => Some (MWant, S d)
     | TCaret => Some (MWant, d)
     | TLb => Some (MBName, d)
@@ -545,7 +559,7 @@ Definition astep (m : amode) (d : nat) (t : tok) : option (amode * nat) :=
     | _ => None
     end
   | MMinus => match t with TGt => Some (MWant, d) | _ => None end
-  | MBName => match t with TBad => None | _ => Some (MBSep, d) end
+  | MBName => match t with TId _ => Some (MBSep, d) | _ => None end
   | MBSep =>
     match t with
     | TComma => Some (MBName, d)
@@ -560,11 +574,24 @@ Fixpoint arun (m : amode) (d : nat) (ts : list tok) : option (amode * nat) :=
   | t :: r => match astep m d t with Some (m', d') => arun m' d' r | None => None end
   end.
 
-(* accepted shape: operand/operator alternation, parentheses balanced outside
-   brace groups, optional final ";" *)
+(* accepted shape: operand/operator alternation, balanced parentheses, brace
+   groups of names separated by commas, optional final ";" *)
 Definition accept (ts : list tok) : bool :=
   match arun MWant 0 ts with
   | Some (MAfter, O) => true
   | Some (MWant, O) => match rev ts with TSemi :: _ :: _ => true | _ => false end
   | _ => false
   end.
+
+(* tokens that cannot follow a complete formula: everything but the first token
+   of a binary operator, i.e. identifiers ( ) { } , ^ > and TBad *)
+Definition nocont (t : tok) : bool :=
+  match t with TSemi | TEq | TBar | TAmp | TMinus => false | _ => true end.
+
+(* tokens of the documented alphabet: the tokenizer gives them back *)
+Definition good_tok (t : tok) : bool :=
+  match t with TId s => valid_name s | TBad => false | _ => true end.
+
+(* tokens that can start an operand: a name ( { ^ *)
+Definition operand_start (t : tok) : bool :=
+  match t with TId _ | TLp | TLb | TCaret => true | _ => false end.
